@@ -759,4 +759,20 @@ fn scn_deflate_protocol(o: &Opts, tr: &mut Tr, prop: &str) {
         let fo = [1usize, 5, 64, 200000][i % 4];
         deflate_case(tr, &format!("dp{}-{}-{}", i, kind, size), prop, &data, &cfg, &calls, fo, kind);
     }
+    // output parked by a flush into a tiny buffer, a Finish call that can only hand out (part of) what is
+    // parked, then calls that are not Finish: the Finish request has been made and must be remembered
+    let mut k = 0usize;
+    for lvl in [0u8, 1, 6] {
+        for f1 in [MZFlush::Sync, MZFlush::Full, MZFlush::Partial, MZFlush::None] {
+            for f3 in [MZFlush::None, MZFlush::Sync, MZFlush::Full] {
+                k += 1;
+                if !o.thorough && (k + o.seed as usize) % 2 == 0 { continue; }
+                let data = gen::data("rand", 300 + k, &mut r);
+                let cfg = Cfg { zlib: k % 2 == 0, level: lvl, strat: 0, wbits: 15, api: "params" };
+                let small = [4usize, 1, 9][k % 3];
+                let calls = vec![(300usize, small, f1), (0, small.min(3), MZFlush::Finish), (0, 100, f3), (k % 7, 100, f3), (0, 200000, MZFlush::Finish)];
+                deflate_case(tr, &format!("dpark-l{}-{}-{}-{}", lvl, comp::mzflush_name(f1), comp::mzflush_name(f3), k), prop, &data, &cfg, &calls, 200000, "rand");
+            }
+        }
+    }
 }
